@@ -60,6 +60,12 @@ func splitFrames(buf *[]byte) [][]byte {
 	}
 }
 
+// DecodesUnder reports whether raw is a well-formed frame for a connection with the given compression.
+func DecodesUnder(compression string, raw []byte) bool {
+	_, err := decodeFrame(compression, raw)
+	return err == nil
+}
+
 func decodeFrame(compression string, raw []byte) (frm *frame.Frame, err error) {
 	c, ok := refCodecs[compression]
 	if !ok {
